@@ -76,6 +76,8 @@ type vPod struct {
 }
 
 type vWorld struct {
+	podLists  int    // listings of all pods (one per group and scan)
+	onPodList func() // hook run at each of them
 	J       *aws.VerifJournal
 	AS      *aws.VerifAutoScaling
 	EC2     *aws.VerifEC2
@@ -366,6 +368,10 @@ type vPodLister struct {
 }
 
 func (l *vPodLister) List(sel labels.Selector) ([]*v1.Pod, error) {
+	l.w.podLists++
+	if l.w.onPodList != nil {
+		l.w.onPodList()
+	}
 	if l.w.failPodList {
 		return nil, errors.New("injected pod list failure")
 	}
